@@ -88,7 +88,7 @@ contract(FFX + ".round", params=dict(self=FFXT, key=TBytes, i=TInt, s=BITS, outp
              "it == 0 or it * 160 < output_len"],
              hints=[("rep_bound", ["Dval(key, old(i), s.value, s.length)", "it + 1"])])},
          domains=dict(i=SMALL, output_len=SMALL),
-         props=["C15"])
+         props=["C15", "C04"])
 
 # ---- Feistel state functions (forward) and the backward walk of decrypt ------------------------------------
 # forward: state(0) = (av, al, bv, bl);  state(j+1) = (b_j, a_j ^ F_j(b_j, len a_j))     (all lengths >= 1)
@@ -200,7 +200,7 @@ contract(FFX + ".encrypt", params=dict(self=FFXT, key=TBytes, v=BITS), returns=B
                                "v.value %% pow2(%s)" % HALF, HALF]),
                 ("f_values", ["key", "self.rounds", "v.value // pow2(%s)" % HALF, "v.length - %s" % HALF,
                               "v.value %% pow2(%s)" % HALF, HALF])],
-         gen=lambda rnd: _gen_ffx(rnd), props=["C15"])
+         gen=lambda rnd: _gen_ffx(rnd), props=["C15", "C04"])
 D0 = "self.rounds, " + A0
 contract(FFX + ".decrypt", params=dict(self=FFXT, key=TBytes, v=BITS), returns=BITS,
          requires=["v.length >= 2", "self.rounds < 4294967296"],
@@ -307,7 +307,7 @@ contract(BPRP + ".__call__", reveal=["prp_value"], params=dict(self=BPRPT, key=B
                   "pow2(fbl(i2b(key.value, (key.length + 7) // 8), self.underlying_fpe.rounds, {a})) + "
                   "fbv(i2b(key.value, (key.length + 7) // 8), self.underlying_fpe.rounds, {a})".format(a=A0.replace("v.", "message.")),
                   "result.value == prp_value(i2b(key.value, (key.length + 7) // 8), self.underlying_fpe.rounds, message.length, message.value)"],
-         gen=lambda rnd: _gen_bprp(rnd), props=["C15", "C01"])
+         gen=lambda rnd: _gen_bprp(rnd), props=["C15", "C01", "C04"])
 
 
 def _gen_bprp(rnd):
